@@ -79,14 +79,16 @@ Proof. destruct c; cbn; [apply hb_nonneg|lia]. Qed.
 Lemma one_nonneg k k' : 0 <= one k k' <= 1.
 Proof. destruct k, k'; cbn; lia. Qed.
 
-Lemma held_nonneg k p g : wfpc p -> 0 <= g -> 0 <= held k p g.
+(* the enter that made the group non-empty was not made under an outstanding enter (proved with the invariant) *)
+Definition wfpc2 (p : pc) : Prop := wfpc p /\ p <> PEnterRetain BE.
+Lemma held_nonneg k p g : wfpc2 p -> 0 <= g -> 0 <= held k p g.
 Proof.
-  intros W G. destruct p; cbn [wfpc] in *;
+  intros [W NE] G. destruct p; cbn [wfpc] in *;
     repeat match goal with
            | b : bsrc |- _ => destruct b
            | c : kont |- _ => destruct c
            end; destruct k; cbn [held held0 hb hk one]; unfold wfb in *; try nia;
-    exfalso; intuition congruence.
+    exfalso; try (apply NE; reflexivity); intuition congruence.
 Qed.
 
 (* ------------------------------------------------------------------ bit facts about the group word *)
@@ -137,8 +139,8 @@ Proof.
 Qed.
 Lemma wf_call_pc e p : call_pc e = Some p -> wfpc p.
 Proof.
-  unfold call_pc, borrow_of.
-  assert (Wb : wfb (if ea e / 100 =? 0 then BX else BI)) by (destruct (ea e / 100 =? 0); discriminate).
+  assert (Wb : wfb (borrow_of e)) by (unfold borrow_of, wfb; destruct (ea e / 100 =? 0); [|destruct (ea e / 100 =? 1)]; discriminate).
+  unfold call_pc. set (b := borrow_of e) in *. clearbody b.
   repeat match goal with
          | |- context [if ?c then _ else _] => destruct c eqn:?
          end; intros H; try discriminate; injection H as <-; cbn; auto; try lia;
@@ -199,13 +201,13 @@ Definition Greg (r : greg -> Z) (pv : kind -> Z) : Prop :=
   (r NFIN = (if (r DISP =? 1) && finset r then 1 else 0) /\ (r NFIN = 1 -> r FINCTX = r CTX /\ r FINQ = r TQ)) /\
   (r CRASH = 0 /\ r XREF < MAXC /\ r IREF < MAXC) /\
   (* whoever owes a retain is inside a call that borrowed a reference *)
-  pv KB = pv KBX + pv KBI - pv KPE - pv KPN /\
+  (pv KB = pv KBX + pv KBI - pv KPE /\ pv KB2 = pv KBX + pv KBI + pv KBE - pv KPN) /\
   (* a borrowed reference is there: while calls borrow a level, its owners keep at least one reference of that level *)
-  (borrowed_ok (pv KBX) (r XPOOL) /\ borrowed_ok (pv KBI) (r IPOOL)).
+  (borrowed_ok (pv KBX) (r XPOOL) /\ borrowed_ok (pv KBI) (r IPOOL) /\ borrowed_ok (pv KBE) (r EPOOL)).
 
 Definition hf (s : gst) (k : kind) : Z -> Z := fun t => held k (pcs s t) (gn s t).
 Definition Binv (s : gst) : Prop := forall k, bounded (hf s k) (priv s k).
-Definition Tinv (s : gst) : Prop := forall t, wfpc (pcs s t) /\ 0 <= gn s t.
+Definition Tinv (s : gst) : Prop := forall t, wfpc2 (pcs s t) /\ 0 <= gn s t.
 Definition Inv (s : gst) : Prop := Greg (regs s) (priv s) /\ Binv s /\ Tinv s.
 
 Lemma Inv_init : Inv init_state.
@@ -216,7 +218,7 @@ Proof.
     induction l as [|a l IH]; cbn [sumf]; [lia|].
     inversion ND as [|? ? ? ND']; subst. specialize (IH ND').
     assert (E : held k PIdle 0 = 0) by (destruct k; reflexivity). rewrite E in *. lia.
-  - intros t. cbn. split; [exact I|lia].
+  - intros t. cbn. split; [split; [exact I|discriminate]|lia].
 Qed.
 
 Lemma s32_small x : -2147483648 <= x < 2147483648 -> s32 x = x.
@@ -263,8 +265,8 @@ Proof.
   destruct (Z.ltb_spec old (-1)) as [E3|E3]; cbn [negb]; intros H; injection H as <-; [right; left; auto|].
   right; right. split; [reflexivity|lia].
 Qed.
-Lemma hb_wf b : wfb b -> hb KBX b + hb KBI b = 1.
-Proof. destruct b; cbn; intros H; [reflexivity|reflexivity|exfalso; apply H; reflexivity]. Qed.
+Lemma hb_wf b : wfb b -> hb KBX b + hb KBI b + hb KBE b = 1.
+Proof. destruct b; cbn; intros H; [reflexivity|reflexivity|reflexivity|exfalso; apply H; reflexivity]. Qed.
 
 Arguments hb k b : simpl nomatch.
 Ltac split_ifs H :=
@@ -274,7 +276,7 @@ Ltac split_ifs H :=
 Ltac simp_goal :=
   cbn [is_crash apply_ups setr greg_id Z.eqb Pos.eqb held held0 hb hk one fst snd app b2z].
 Ltac spec_kinds HL :=
-  pose proof (HL KX); pose proof (HL KI); pose proof (HL KBX); pose proof (HL KBI); pose proof (HL KE); pose proof (HL KQ); pose proof (HL KPE);
+  pose proof (HL KX); pose proof (HL KI); pose proof (HL KBX); pose proof (HL KBI); pose proof (HL KBE); pose proof (HL KB2); pose proof (HL KE); pose proof (HL KQ); pose proof (HL KPE);
   pose proof (HL KPN); pose proof (HL KD); pose proof (HL KXD); pose proof (HL KDP); pose proof (HL KB).
 Lemma Greg_bounds r pv : Greg r pv -> (forall k, 0 <= pv k) ->
   (-1 <= r XREF < 2147483647 /\ -1 <= r IREF < 2147483647) /\ pv KX <= r XREF + 1 /\ pv KI <= r IREF + 1.
@@ -293,7 +295,7 @@ Ltac b_facts :=
   repeat match goal with b : bsrc |- _ =>
     lazymatch goal with
     | H : 0 <= hb KBX b |- _ => fail
-    | _ => pose proof (hb_nonneg KBX b); pose proof (hb_nonneg KBI b)
+    | _ => pose proof (hb_nonneg KBX b); pose proof (hb_nonneg KBI b); pose proof (hb_nonneg KBE b)
     end end;
   repeat match goal with H : wfb ?b |- _ => apply hb_wf in H end.
 Ltac leave_facts :=
@@ -305,14 +307,17 @@ Ltac borrow_facts :=
              lazymatch goal with
              | H : hb KBX b <= r XPOOL |- _ => fail
              | _ => assert (hb KBX b <= r XPOOL) by (unfold borrowed_ok in *; lia);
-                    assert (hb KBI b <= r IPOOL) by (unfold borrowed_ok in *; lia)
+                    assert (hb KBI b <= r IPOOL) by (unfold borrowed_ok in *; lia);
+                    assert (hb KBE b <= r EPOOL) by (unfold borrowed_ok in *; lia)
              end
          end.
 Ltac borrow_facts1 :=
   try match goal with HX : borrowed_ok (?pv KBX) (?r XPOOL), H : 1 <= ?pv KBX |- _ =>
         assert (1 <= r XPOOL) by (unfold borrowed_ok in HX; lia) end;
   try match goal with HI : borrowed_ok (?pv KBI) (?r IPOOL), H : 1 <= ?pv KBI |- _ =>
-        assert (1 <= r IPOOL) by (unfold borrowed_ok in HI; lia) end.
+        assert (1 <= r IPOOL) by (unfold borrowed_ok in HI; lia) end;
+  try match goal with HE : borrowed_ok (?pv KBE) (?r EPOOL), H : 1 <= ?pv KBE |- _ =>
+        assert (1 <= r EPOOL) by (unfold borrowed_ok in HE; lia) end.
 Ltac prep :=
   unfold Greg, finset, MAXC, MAXE, f_OS_OBJECT_GLOBAL_REFCNT in *; conj_hyps; b_facts.
 Ltac finish :=
@@ -384,116 +389,5 @@ Proof.
     + apply nf_body_cases in Hts as [[new' ->]|(st & -> & Hst)].
       * finish.
       * unfold wake_entry. rewrite Hst. finish.
-Qed.
-
-Lemma held_fire_exit k c needs hw : 0 <= needs -> held k (PFire c needs hw) 0 = held k (wake_tail c (needs + 1) hw) 0.
-Proof.
-  intros H. unfold wake_tail, wake_rel. destruct hw.
-  - destruct k; cbn [held held0 one]; lia.
-  - destruct (Z.eqb_spec (needs + 1) 0); [lia|]. destruct k; cbn [held held0 one]; lia.
-Qed.
-
-Ltac disp0 :=
-  match goal with |- context [?r0 DISP =? 1] =>
-    let D := fresh "D0" in assert (D : r0 DISP = 0) by lia; rewrite D in * end;
-  cbn [Z.eqb andb] in *; try lia.
-
-Lemma call_cases e p : call_pc e = Some p ->
-  let op := ea e mod 100 in let b := borrow_of e in
-  wfb b /\
-  ((op = 1 /\ p = PRetain) \/ (op = 2 /\ p = PRelease) \/ (op = 4 /\ p = PLeave (KApi BN)) \/
-   (op = 10 /\ p = PIRel (KApi BN) (eb e) /\ (eb e = 1 \/ eb e = 2)) \/
-   (op = 3 /\ p = PEnter b) \/ (op = 5 /\ p = PNfQ b) \/ ((op = 6 \/ op = 7 \/ op = 8) /\ p = PRet b 0 0 0) \/
-   (op = 9 /\ p = PIRetain b (eb e) /\ (eb e = 1 \/ eb e = 2)) \/ (op = 11 /\ p = PWeakLoad b)).
-Proof.
-  unfold call_pc, borrow_of, OP_RETAIN, OP_RELEASE, OP_ENTER, OP_LEAVE, OP_NOTIFY, OP_SETCTX, OP_SETFIN, OP_SETTQ,
-    OP_IRETAIN, OP_IRELEASE, OP_WEAK. intros H. cbv zeta.
-  split; [destruct (ea e / 100 =? 0); discriminate|].
-  destruct ((ea e <? 0) || (200 <=? ea e)); [discriminate|].
-  destruct (Z.eqb_spec (ea e mod 100) 1) as [E|_]; [destruct (ea e / 100 =? 0); [|discriminate]; injection H as <-; auto|].
-  destruct (Z.eqb_spec (ea e mod 100) 2) as [E|_]; [destruct (ea e / 100 =? 0); [|discriminate]; injection H as <-; auto|].
-  destruct (Z.eqb_spec (ea e mod 100) 4) as [E|_]; [destruct (ea e / 100 =? 0); [|discriminate]; injection H as <-; auto|].
-  destruct (Z.eqb_spec (ea e mod 100) 10) as [E|_].
-  { destruct ((ea e / 100 =? 0) && ((eb e =? 1) || (eb e =? 2))) eqn:C; [|discriminate]. injection H as <-.
-    right; right; right; left. bool_hyps. destruct H0; bool_hyps; auto. }
-  destruct (Z.eqb_spec (ea e mod 100) 3) as [E|_]; [injection H as <-; auto 10|].
-  destruct (Z.eqb_spec (ea e mod 100) 5) as [E|_]; [injection H as <-; auto 10|].
-  destruct ((ea e mod 100 =? 6) || (ea e mod 100 =? 7) || (ea e mod 100 =? 8)) eqn:C.
-  { injection H as <-. do 6 right; left. split; [|reflexivity]. bool_hyps. destruct C as [C|C]; bool_hyps; auto.
-    destruct C; bool_hyps; auto. }
-  destruct (Z.eqb_spec (ea e mod 100) 9) as [E|_].
-  { destruct ((eb e =? 1) || (eb e =? 2)) eqn:C2; [|discriminate]. injection H as <-. do 7 right; left.
-    bool_hyps. destruct C2; bool_hyps; auto. }
-  destruct (Z.eqb_spec (ea e mod 100) 11) as [E|_]; [injection H as <-; auto 12|discriminate].
-Qed.
-
-
-Ltac call_case Hef Eop :=
-  subst; unfold guard, call_guard, OP_SETCTX, OP_SETFIN, OP_SETTQ in Hef; rewrite Eop in Hef;
-  cbn [held held0 hb hk one Z.eqb Pos.eqb app] in Hef; split_ifs Hef; injection Hef as <- <-;
-  prep; finish; try disp0;
-  try (exfalso; match goal with H : ?r0 NFIN = (if (?r0 DISP =? 1) && _ then 1 else 0) |- _ =>
-         let D := fresh "D0" in assert (D : r0 DISP = 0) by lia; rewrite D in H; cbn [Z.eqb andb] in H; lia end).
-
-Lemma contract_r_fire r c needs hw e :
-  contract_r r (PFire c needs hw) e = true -> contract_r r (wake_tail c (needs + 1) hw) e = true.
-Proof.
-  unfold contract_r, wake_tail, wake_rel, end_pc. destruct hw; [auto|]. destruct (needs + 1 =? 0); [|auto].
-  destruct c; auto.
-Qed.
-
-Lemma greg_step s t e s' : Inv s -> contractb s t e = true -> gstep s t e = Some s' ->
-  Greg (regs s') (priv s') /\ 0 <= gn s' t.
-Proof.
-  intros (HG & HB & HT) Hct Hs. unfold gstep in Hs. unfold contractb in Hct.
-  destruct (tstep (pcs s t) e) as [p'|] eqn:Hts; [|discriminate].
-  destruct (effect (regs s) (priv s) (gn s t) (pcs s t) e) as [[ups g']|] eqn:Hef; [|discriminate].
-  injection Hs as <-. cbn [regs priv gn]. rewrite upd_same.
-  pose proof (fun k => held_le s t k HB) as HL. pose proof (fun k => priv_nonneg s k HB) as HP.
-  destruct (HT t) as [HW Hg].
-  unfold tstep, effect in *.
-  destruct (noise e).
-  { (* events of other code: nothing changes *)
-    injection Hef as <- <-.
-    assert (p' = pcs s t) as -> by (destruct (pcs s t); try discriminate; injection Hts as <-; reflexivity).
-    split; [|exact Hg]. cbn [apply_ups].
-    assert (is_crash (pcs s t) = false) as -> by (destruct (pcs s t); try discriminate; reflexivity).
-    apply (Greg_same _ (priv s)); [intros k; lia|exact HG]. }
-  set (r := regs s) in *. set (pv := priv s) in *. set (g := gn s t) in *. clearbody r pv g. clear HB HT.
-  destruct (pcs s t) eqn:Hpc; try (apply (greg_step1 _ _ _ _ e); assumption); clear Hpc.
-  - (* PIdle *)
-    destruct (ev_kind e DVU_CALL).
-    + (* an API call takes its tokens out of the pools *)
-      rewrite Hts in Hef. apply call_cases in Hts as (Wb & Hc). cbv zeta in Hc.
-      set (b := borrow_of e) in *. clearbody b. spec_kinds HP; clear HL HP.
-      destruct Hc as [(Eop & ->)|[(Eop & ->)|[(Eop & ->)|[(Eop & -> & Hn)|[(Eop & ->)|[(Eop & ->)|[(Eop & ->)|[(Eop & -> & Hn)|(Eop & ->)]]]]]]]].
-      * call_case Hef Eop.
-      * call_case Hef Eop.
-      * call_case Hef Eop.
-      * destruct Hn as [Hn|Hn]; rewrite Hn in *; call_case Hef Eop.
-      * call_case Hef Eop.
-      * call_case Hef Eop.
-      * destruct Eop as [Eop|[Eop|Eop]]; call_case Hef Eop.
-      * destruct Hn as [Hn|Hn]; rewrite Hn in *; call_case Hef Eop.
-      * call_case Hef Eop.
-    + (* library-internal leave on a worker thread *)
-      spec_kinds HP; clear HL HP.
-      cbn [tstep1 effect1] in *. unfold guard, lv_entry, wake_entry, wake_tail, wake_rel, end_pc in *.
-      prep. split_ifs Hts; split_ifs Hef; try discriminate; injection Hts as <-; injection Hef as <- <-; finish.
-  - (* PRet: the call's tokens go (back) to the pools *)
-    spec_kinds HL. spec_kinds HP. clear HL HP. cbn [tstep1 wfpc] in Hts, HW. split_ifs Hts. injection Hts as <-. injection Hef as <- <-.
-    prep. finish.
-  - (* PFire *)
-    destruct (is_qrel e).
-    + injection Hts as <-. spec_kinds HL. spec_kinds HP. clear HL HP. unfold guard in Hef. split_ifs Hef.
-      injection Hef as <- <-. prep. finish.
-    + destruct (Z.eqb_spec g 0) as [E0|]; [|discriminate]. subst g. cbn [wfpc] in HW.
-      apply contract_r_fire in Hct.
-      assert (W2 : wfpc (wake_tail k (needs + 1) hw)) by (apply wf_wake_tail; lia).
-      assert (HL2 : forall k0, held k0 (wake_tail k (needs + 1) hw) 0 <= pv k0)
-        by (intros k0; rewrite <- held_fire_exit by exact HW; apply HL).
-      destruct (greg_step1 r pv (wake_tail k (needs + 1) hw) 0 e p' ups g' HG W2 Hg HL2 HP Hct Hts Hef) as [G1 G2].
-      split; [|exact G2]. eapply Greg_same; [|exact G1]. intros k0. cbv beta.
-      rewrite held_fire_exit by exact HW. reflexivity.
 Qed.
 
